@@ -203,6 +203,21 @@ UNITS["gens_chain"] = {
     "safety": {"*": ["C11"]},
 }
 
+# the constructor of the Pedersen generator sets (src/ristretto.rs)
+PCTOR_SUBST = [("ExtensionDegree :: COUNT", "6"), ("RISTRETTO_BASEPOINT_POINT", "v_basepoint()"), ("RISTRETTO_BASEPOINT_COMPRESSED", "v_basepoint_compressed()"),
+               ("RistrettoPoint", "P"), ("CompressedRistretto", "CP")]
+UNITS["pedersen_ctor"] = {
+    "prelude": PRELUDE_ALL + ["98_ristretto.rs"],
+    "contracts": ["pedersen_ctor.vc"],
+    "pieces": types() + [
+        text("spec/spec_wf.rs"), text("spec/spec_verify.rs"), text("spec/spec_prove.rs"), text("spec/spec_transcript.rs"), text("spec/spec_mask.rs"), text("spec/tproto_trait.rs"), text("spec/sproto_trait.rs"),
+    ] + RPT_ITEMS + [
+        fns("src/ristretto.rs", None, None, fns=["get_g_base", "create_pedersen_gens_with_extension_degree"],
+            stubs=["ristretto_masking_basepoints", "ristretto_compressed_masking_basepoints"], opdesugar=False, subst=PCTOR_SUBST),
+    ],
+    "safety": {"*": ["C11", "C17"]},
+}
+
 # serde wrappers (C15: "the serde form accepts and produces exactly the same byte strings")
 UNITS["serde"] = {
     "prelude": PRELUDE_ALL + ["90_codec.rs", "97_serde.rs"],
